@@ -129,6 +129,26 @@ package ipfsproxy
 //@ extern http.NewRequest(method, url, body)
 //@   modifies nothing
 
+// repo/stat: "answers ... by performing the corresponding cluster operation": every cluster peer is asked for its
+// repo stat, and every peer that answered is counted in the totals - whatever happened to the peers listed before it
+//@ extern rpc.Client.MultiCall(ctxs, dests, svcName, svcMethod, rpcArgs, replies)
+//@   ensures len(res) == len(dests)
+//@   ensures rpcLastSvc == svcName && rpcLastMethod == svcMethod
+//@   modifies rpcN, rpcOK, rpcLastSvc, rpcLastMethod, rpcLastArg, heap(api.IPFSRepoStat)
+
+//@ func (proxy *Server) repoStatHandler
+//@   property C12
+//@   ensures [read-only] mutOK == old(mutOK)
+//@   at_call rpc.Client.MultiCall assert [asks-every-peer-for-its-repo-stat] svcName == "IPFSConnector" && svcMethod == "RepoStat" && same(dests, peers) && len(replies) == len(peers)
+//@   loop 1 (range repoStats)
+//@     invariant len(repoStats) == len(peers) && len(repoStatsIfaces) == len(peers) && mutOK == old(mutOK)
+//@   loop 2 (range errs)
+//@     invariant mutOK == old(mutOK)
+//@     on_break [every-peer-considered] false
+//@     step [answering-peer-counted] errs[prev(i)] == nil ==> totalStats.RepoSize == prev(totalStats.RepoSize) + repoStats[prev(i)].RepoSize && totalStats.StorageMax == prev(totalStats.StorageMax) + repoStats[prev(i)].StorageMax
+//@     step [failed-peer-not-counted] errs[prev(i)] != nil ==> totalStats == prev(totalStats)
+//@   modifies httpResponses, httpLastStatus, rpcN, rpcOK, mutOK, rpcLastSvc, rpcLastMethod, rpcLastArg, heap(api.IPFSRepoStat)
+
 //@ func (proxy *Server) setCORSHeaders
 //@   property C12
 //@   at_call http.NewRequest assert [preflight-only] method == "OPTIONS"
@@ -170,4 +190,5 @@ package ipfsproxy
 //@ func (proxy *Server) Shutdown
 //@   property C18
 //@   opts own
+//@   ensures [success-means-shut-down] err == nil ==> proxy.shutdown
 //@   modifies *
